@@ -554,6 +554,33 @@ pub fn run(args: &Args) -> Report {
                 rep.count("whitespace_gap_cases_inside_unknown_members");
             }
         }
+        // an empty list (written [] and [ ]) for each list member at every position among non-empty other members
+        {
+            let h = "ab".repeat(32);
+            let others: Vec<(&str, String)> = vec![
+                ("ids", format!("\"ids\":[\"{h}\"]")),
+                ("authors", format!("\"authors\":[\"{h}\"]")),
+                ("kinds", "\"kinds\":[1,7]".to_string()),
+                ("#e", "\"#e\":[\"x]\",\"y\"]".to_string()),
+                ("limit", "\"limit\":3".to_string()),
+                ("since", "\"since\":5".to_string()),
+            ];
+            for empty in ["ids", "authors", "kinds", "#e", "#p"] {
+                let rest: Vec<&String> = others.iter().filter(|(n, _)| *n != empty).map(|(_, t)| t).collect();
+                for pos in 0..=rest.len() {
+                    for spelling in ["[]", "[ ]", "[\n]"] {
+                        let mut parts: Vec<String> = rest.iter().map(|t| t.to_string()).collect();
+                        parts.insert(pos, format!("\"{empty}\":{spelling}"));
+                        let text = format!("{{{}}}", parts.join(","));
+                        let end = text.len();
+                        if let Some(p) = check_in_domain(&mut rep, text.as_bytes(), "empty-list-among-members", end) {
+                            check_roundtrip(&mut rep, &p.bytes, None, "parsed");
+                        }
+                        rep.count("empty_list_position_cases");
+                    }
+                }
+            }
+        }
         // empty lists and empty object
         for t in ["{}", "{\"ids\":[]}", "{\"authors\":[],\"kinds\":[]}", "{\"#e\":[]}", "{\"#e\":[],\"#p\":[\"x\"]}", " { } ", "{\"kinds\":[ ]}"] {
             let text = t.as_bytes();
